@@ -38,6 +38,7 @@ SeqToSet(s) == {s[i] : i \in 1..Len(s)}
 CfgOf(o) == [S |-> o.S, M |-> o.mode, vars |-> SeqToSet(o.vars), period |-> o.period, tol |-> o.tol]
 InitMs(c) == [i \in 1..Len(c.objs) |-> NewObj(CfgOf(c.objs[i]))]
 InitOb(c) == [i \in 1..Len(c.objs) |-> [on |-> <<>>, off |-> <<>>, offt |-> <<>>, dead |-> FALSE, gets |-> <<>>,
+                                        poisoned |-> FALSE,                   \* an update() met an undefined value: unknown state until reset()
                                         status |-> StatusOf(c.objs[i]),       \* of the bounds under the configuration in force
                                         compared |-> 0, drift |-> 0]]     \* binding of the explainer model (Explain.tla)
 \* Python raises on the operations the README leaves undefined (division by zero, sqrt/log domain,
@@ -99,6 +100,9 @@ ApplyPastify(m, o, e, obj, step) ==
 \* written under the configuration then in force (a bound that is no longer a whole number of periods is rejected then).
 \* Re-configuring an online monitor whose operators are built is outside the specification (the object is not examined further).
 ApplyConfig(m, o, e, obj, step) ==
+  \* a configuration call that must be refused (a tolerance outside [0, 1]) raises and leaves the configuration as it was
+  IF "reject" \in DOMAIN e
+  THEN R(m, o, IF e.exc # NoExc /\ e.exc # "timeout" THEN Ok ELSE F("config.rejected", step, "an exception", e.exc), 0) ELSE
   \* a new tolerance with the same period (C13): the bounds mean what they meant, the counter of the next data set uses it
   IF "tol" \in DOMAIN e /\ m.phase \in {"parsed", "offline"} /\ e.period = m.cfg.period
   THEN R([m EXCEPT !.cfg = [m.cfg EXCEPT !.tol = e.tol]], o, ExcClass(TRUE, e, "config.exc", step), 0) ELSE
@@ -123,7 +127,9 @@ ApplyUpdate(m, o, e, step) ==
   ELSE IF AnyUndefOn(m, Full(m, e.s)) THEN
        \* some sub-formula has no defined value (inf - inf, 0 * inf, division by zero ...): Python either raises
        \* or propagates NaN in an order-dependent way; the README defines nothing here
-       (IF e.exc \in ArithExc \cup {NoExc} THEN R(m, [o EXCEPT !.dead = TRUE], Ok, 1)
+       \* (the state of the operators is then unknown - until the next reset(), which must bring the monitor back to its initial
+       \*  state whatever happened before, also a call that raised half-way)
+       (IF e.exc \in ArithExc \cup {NoExc} THEN R(m, [o EXCEPT !.dead = TRUE, !.poisoned = TRUE], Ok, 1)
         ELSE R(m, [o EXCEPT !.dead = TRUE], F("update.exc", step, "ok or arithmetic error", e.exc), 1))
   ELSE
     LET m2 == UpdateF(m, e.s, e.t, {})
@@ -271,6 +277,8 @@ ApplyExplain(m, o0, e, step) ==
 
 Apply(c, e, step) ==
   LET m == ms[e.o] o == ob[e.o] obj == c.objs[e.o] IN
+  IF o.dead /\ o.poisoned /\ e.a = "reset" THEN
+    (LET r == ApplyReset(m, o, e, step) IN R(r.m, [r.o EXCEPT !.dead = FALSE, !.poisoned = FALSE], r.f, r.u)) ELSE
   IF o.dead THEN R(m, o, Ok, 0) ELSE
   \* C08: a bound that is not a whole number of sampling periods is rejected (RTAMTException) at the first evaluation
   IF e.a \in {"update", "evaluate"} /\ o.status = "nonint"
